@@ -79,9 +79,13 @@ func (p Ether) EtherType() uint16     { return binary.BigEndian.Uint16(p[12:14])
 func (p Ether) SrcIP() netip.Addr {
 	switch p.EtherType() {
 	case syscall.ETH_P_IP:
-		return IP4(p.Payload()).Src()
+		if len(p) >= EthHeaderLen+HeaderLen {
+			return IP4(p[EthHeaderLen:]).Src()
+		}
 	case syscall.ETH_P_IPV6:
-		return IP6(p.Payload()).Src()
+		if len(p) >= EthHeaderLen+IP6HeaderLen {
+			return IP6(p[EthHeaderLen:]).Src()
+		}
 	}
 	return netip.Addr{}
 }
@@ -90,9 +94,13 @@ func (p Ether) SrcIP() netip.Addr {
 func (p Ether) DstIP() netip.Addr {
 	switch p.EtherType() {
 	case syscall.ETH_P_IP:
-		return IP4(p.Payload()).Dst()
+		if len(p) >= EthHeaderLen+HeaderLen {
+			return IP4(p[EthHeaderLen:]).Dst()
+		}
 	case syscall.ETH_P_IPV6:
-		return IP6(p.Payload()).Dst()
+		if len(p) >= EthHeaderLen+IP6HeaderLen {
+			return IP6(p[EthHeaderLen:]).Dst()
+		}
 	}
 	return netip.Addr{}
 }
